@@ -53,6 +53,7 @@ type threadMode struct {
 	setupObjs  int // number of objects allocated by the setup phase
 	atomic     int
 	chanSeq    int
+	parks      int
 	varSeq     int
 	active     bool
 	maxSeq     int
@@ -67,6 +68,10 @@ type threadMode struct {
 }
 
 var bmcMaxSeq = 4
+
+// unwinding bounds of a thread's event tree: active frames of one function, blocking receives per path
+var bmcMaxRecursion = 2
+var bmcMaxParks = 2
 
 func (ex *Exec) inThread() bool { return ex.tm != nil && ex.tm.active }
 
